@@ -22,6 +22,19 @@ var commonMounts = []string{
 }
 
 var harnesses = map[string]*harnessConfig{
+	"h4": {
+		Package: "./cmd/worker", Module: "godev", TestHosted: true,
+		RootPkgs: "./internal/telemetry",
+		DevPkgs:  "./cmd/worker",
+		Mounts: append(append([]string{}, commonMounts...),
+			"godev/cmd/worker=sim/harness/h4"),
+	},
+	"h5": {
+		Package: "./internal/storage", Module: "godev", TestHosted: true,
+		RootPkgs: "./internal/telemetry",
+		Mounts: append(append([]string{}, commonMounts...),
+			"godev/internal/storage=sim/harness/h5"),
+	},
 	"h3": {
 		Package: "./cmd/telemetrygodev", Module: "godev", TestHosted: true,
 		// Only the uploader side is instrumented (transport, config stub): the
@@ -270,5 +283,23 @@ var props = map[string]*propConfig{
 		Stub:        []string{"transport simulated (no socket)", "configstore.Download stub", "counter files from the independent encoder", "viewer family: the viewer's newCounterFile/summary are evaluated on generated files and configurations and compared with the same reference semantics (active flags per metadata item, counter and stack; summary text)"},
 		Assumptions: []string{"refcfg is the documented semantics"},
 		Probes:      []string{"uploader-bodies"},
+	},
+	"C13": {
+		Harness: "h4", Level: "exploration",
+		Families:    []family{{Name: "merge-and-chart", Flags: map[string]string{"family": "worker"}, Quick: 1600, Thorough: 200000}},
+		QuickBudget: 100 * time.Second, ThoroughBudget: 20 * time.Minute, Chunk: 50,
+		Rule:        "one run = 1..4 simulated days of stored reports (0..40 per day, sizes from tiny to just under the 100 KiB upload limit so that merged lines exceed 64 KiB, repeated X across days, several programs and buckets), the real handleMerge per day (sometimes skipping one) and the real handleChart for single days and ranges, with the bucket listing order and Go's map iteration order inside group/partition permuted by the tape; each chart is computed three times under different permutations; checked: one merged record per stored object decoding to it, NumReports, every partition value against the reference count of distinct report IDs, byte-identical output, 404 and no chart object for a range containing a day never merged",
+		Real:        []string{"godev/cmd/worker handleMerge, readMergedReports, handleChart, group, charts, partition (instrumented: map iteration order)", "godev/internal/storage FSBucket", "internal/config"},
+		Stub:        []string{"bucket handles wrapped so that the listing order comes from the tape", "requests handed to the handlers with a ResponseRecorder", "GCS, Cloud Tasks not run"},
+		Assumptions: []string{"configuration Go versions are of the form go1.N.P (the development version maps to an empty bucket name)", "zero-count buckets may be present or absent"},
+	},
+	"C18": {
+		Harness: "h5", Level: "exploration",
+		Families:    []family{{Name: "store-histories", Flags: map[string]string{"family": "store"}, Quick: 2400, Thorough: 300000}},
+		QuickBudget: 100 * time.Second, ThoroughBudget: 10 * time.Minute, Chunk: 100,
+		Rule:        "one run = a history of 4..19 write / overwrite / read / prefix-list operations on the real FSBucket against a map object store, over names of nested ordinary components and the object names the upload (week/%g-of-X.json incl. extreme floats), merge (date.json) and chart (date.json, start_end.json) services construct; names that are a path prefix of another stored name are not generated; every constructed name must resolve under the bucket directory and a sibling bucket must stay untouched",
+		Real:        []string{"godev/internal/storage FSBucket, FSObject, FSObjectIterator", "Linux tmpfs"},
+		Stub:        []string{"GCS backend not run"},
+		Assumptions: []string{"input-heavy property: claimed for the history part (sequences of operations against a model)"},
 	},
 }
